@@ -1,3 +1,4 @@
+import Driver.Drv.Ban
 import Driver.Drv.Dispatcher
 import Driver.Drv.Lru
 import Driver.Drv.PushTx
@@ -6,6 +7,7 @@ import Driver.Drv.Subs
 namespace Driver
 
 def drivers : List (String × CaseFn) := [
+  ("ban", Driver.Drv.Ban.runCase),
   ("dispatcher", Driver.Drv.Dispatcher.runCase),
   ("lru", Driver.Drv.Lru.runCase),
   ("pushtx", Driver.Drv.PushTx.runCase),
